@@ -3,6 +3,7 @@
 mod checks_s;
 mod checks_t;
 mod checks_w;
+mod checks_x;
 mod conc;
 mod sched;
 mod core;
@@ -19,6 +20,23 @@ use driver::{Check, DEFAULT_SEED, Tier};
 use std::path::PathBuf;
 
 fn check_for(prop: &str) -> Option<Box<dyn Check>> {
+    match prop {
+        "C08" => {
+            return Some(Box::new(checks_x::C08 {
+                level: checks_t::make("C08")?,
+            }));
+        }
+        "C11" => return Some(Box::new(checks_x::C11)),
+        "C14" => return Some(Box::new(checks_x::C14)),
+        "C15" => {
+            return Some(Box::new(checks_x::C15 {
+                s: checks_s::make("C15S")?,
+                t: checks_t::make("C15T")?,
+            }));
+        }
+        "C19" => return Some(Box::new(checks_x::C19)),
+        _ => {}
+    }
     if let Some(c) = checks_s::make(prop) {
         return Some(Box::new(c));
     }
